@@ -14,39 +14,6 @@ import IRModel.Lemmas.EngineLemmas
 namespace IRModel.Props.Manchester
 open IRModel IRModel.Py IRModel.Match IRModel.Bits IRModel.CodeWrapper IRModel.Manchester IRModel.Props.C08
 
-theorem manchAll_lib (tol : Tol) (m s : Int) :
-    ∀ (l : List Int) (e : PyErr), manchAll tol m s l = .error e → e.isLibrary = true := by
-  intro l
-  induction l with
-  | nil => intro e h; simp [manchAll] at h
-  | cons x l ih =>
-    intro e h
-    unfold manchAll at h
-    split at h
-    · cases h; rfl
-    · cases hr : manchAll tol m s l with
-      | error e' => rw [hr] at h; simp [Except.map] at h; subst h; exact ih _ hr
-      | ok v => rw [hr] at h; simp [Except.map] at h
-
-/-- **parsing on the Manchester path never leaks**: whatever the tables, tolerance and input -/
-theorem parseWithM_lib (tol : Tol) (li lo : List Int) (b : List (Int × Int)) (data : List Int) (e : PyErr)
-    (h : parseWithM tol li lo b data = .error e) : e.isLibrary = true := by
-  unfold parseWithM at h
-  simp only [bind, Except.bind] at h
-  split at h
-  · rename_i e' he; cases h; exact periodCheck_lib _ _ _ _ he
-  · split at h
-    · rename_i e' he; cases h; exact leadInLoop_lib _ _ _ _ _ _ he
-    · split at h
-      · rename_i e' he; cases h; exact leadOutLoop_lib _ _ _ _ _ _ _ _ _ _ he
-      · split at h
-        · rename_i e' he; cases h; exact manchAll_lib _ _ _ _ _ he
-        · split at h
-          · rename_i e' he; cases h; exact pairsToBits_lib _ _ _ he
-          · split at h
-            · cases h; rfl
-            · simp [pure, Except.pure] at h
-
 /-- the tolerance tells one half bit from two merged ones, and marks from spaces (decidable, per table) -/
 def sepM (tol : Tol) (m s : Int) : Bool :=
   isMatch tol m m && !isMatch tol s m && isMatch tol s s &&
